@@ -435,8 +435,9 @@ var otherValues = map[string][]string{
 	refsearch.KVersion:   {"v2", "v2.", "v1.0", "v"},
 }
 
-// filterValue draws a value for (key, op).
-func filterValue(t *rapid.T, view []refsearch.Obj, key string, op object.SearchMatchType, lbl string) string {
+// randomValue draws a value for (key, op) from / near the stored values,
+// without regard to any particular object.
+func randomValue(t *rapid.T, view []refsearch.Obj, key string, op object.SearchMatchType, lbl string) string {
 	stored := storedValues(view, key)
 	if refsearch.IsNumeric(op) {
 		var ints []*big.Int
@@ -445,35 +446,26 @@ func filterValue(t *rapid.T, view []refsearch.Obj, key string, op object.SearchM
 				ints = append(ints, x)
 			}
 		}
-		k := rapid.IntRange(0, 19).Draw(t, lbl+"-nsrc")
+		k := rapid.IntRange(0, 49).Draw(t, lbl+"-nsrc")
 		switch {
 		case k == 0:
-			return rapid.SampledFrom([]string{"text", "1.5", "", "1e3", "++1", "0x1"}).Draw(t, lbl+"-junk")
+			return rapid.SampledFrom([]string{"text", "1.5", "", "1e3", "++1", "0x1", " 1"}).Draw(t, lbl+"-junk")
 		case k == 1:
 			over := new(big.Int).Add(genint.MaxAbs, big.NewInt(int64(rapid.IntRange(1, 2).Draw(t, lbl+"-over"))))
 			if rapid.Bool().Draw(t, lbl+"-neg") {
 				over.Neg(over)
 			}
 			return over.String()
-		case k <= 4:
-			return intString().Draw(t, lbl+"-any")
+		case k <= 9:
+			s := intString().Draw(t, lbl+"-any")
+			if _, ok := genint.RefParse(s); !ok {
+				s = "0"
+			}
+			return s
 		case len(ints) == 0:
 			return rapid.SampledFrom([]string{"0", "1", "-1", "2", "10"}).Draw(t, lbl+"-small")
 		}
-		x := new(big.Int).Set(rapid.SampledFrom(ints).Draw(t, lbl+"-near"))
-		x.Add(x, big.NewInt(int64(rapid.IntRange(-1, 1).Draw(t, lbl+"-delta"))))
-		if !genint.InRange(x) {
-			if x.Sign() > 0 {
-				x.Set(genint.MaxAbs)
-			} else {
-				x.Set(genint.MinVal)
-			}
-		}
-		s := x.String()
-		if x.Sign() >= 0 && rapid.IntRange(0, 5).Draw(t, lbl+"-plus") == 0 {
-			s = "+" + s
-		}
-		return s
+		return nearInt(t, rapid.SampledFrom(ints).Draw(t, lbl+"-near"), rapid.IntRange(-1, 1).Draw(t, lbl+"-delta"), lbl)
 	}
 	k := rapid.IntRange(0, 9).Draw(t, lbl+"-ssrc")
 	if len(stored) > 0 && k <= 6 {
@@ -482,11 +474,7 @@ func filterValue(t *rapid.T, view []refsearch.Obj, key string, op object.SearchM
 		case k <= 3:
 			return s
 		case k <= 5:
-			cut := rapid.IntRange(0, len(s)).Draw(t, lbl+"-cut")
-			if refsearch.IsBinary(key) && key == refsearch.KChecksum && rapid.Bool().Draw(t, lbl+"-even") {
-				cut &^= 1
-			}
-			return s[:cut]
+			return cutPrefix(t, key, s, lbl)
 		default:
 			return s + rapid.SampledFrom([]string{"x", "0", "\xff", "1"}).Draw(t, lbl+"-ext")
 		}
@@ -500,24 +488,121 @@ func filterValue(t *rapid.T, view []refsearch.Obj, key string, op object.SearchM
 	return rapid.SampledFrom(append([]string{"", "zz"}, strPool...)).Draw(t, lbl+"-sjunk")
 }
 
-func drawFilter(t *rapid.T, view []refsearch.Obj, key string, lbl string, numericBias int) refsearch.Filter {
+func nearInt(t *rapid.T, base *big.Int, delta int, lbl string) string {
+	x := new(big.Int).Add(base, big.NewInt(int64(delta)))
+	if !genint.InRange(x) {
+		if x.Sign() > 0 {
+			x.Set(genint.MaxAbs)
+		} else {
+			x.Set(genint.MinVal)
+		}
+	}
+	s := x.String()
+	switch rapid.IntRange(0, 7).Draw(t, lbl+"-spell") {
+	case 0:
+		if x.Sign() >= 0 {
+			s = "+" + s
+		}
+	case 1:
+		if x.Sign() >= 0 {
+			s = "00" + s
+		} else {
+			s = "-0" + s[1:]
+		}
+	}
+	return s
+}
+
+func cutPrefix(t *rapid.T, key, s, lbl string) string {
+	cut := rapid.IntRange(0, len(s)).Draw(t, lbl+"-cut")
+	if key == refsearch.KChecksum && rapid.IntRange(0, 3).Draw(t, lbl+"-even") > 0 {
+		cut &^= 1
+	}
+	return s[:cut]
+}
+
+// witnessValue draws a value for (key, op) that object w (which has key) satisfies.
+func witnessValue(t *rapid.T, view []refsearch.Obj, w refsearch.Obj, key string, op object.SearchMatchType, lbl string) string {
+	s, _ := w.Str(key)
+	switch op {
+	case refsearch.OpEQ:
+		return s
+	case refsearch.OpPrefix:
+		return cutPrefix(t, key, s, lbl)
+	case refsearch.OpNE:
+		v := randomValue(t, view, key, refsearch.OpNE, lbl)
+		if v == s {
+			v += "x"
+		}
+		return v
+	}
+	x, ok := w.Int(key)
+	if !ok {
+		return randomValue(t, view, key, op, lbl)
+	}
+	d := rapid.SampledFrom([]int{0, 1, 1, 2, 1000}).Draw(t, lbl+"-wd")
+	switch op {
+	case refsearch.OpGT:
+		if d == 0 {
+			d = 1
+		}
+		return nearInt(t, x, -d, lbl)
+	case refsearch.OpGE:
+		return nearInt(t, x, -d, lbl)
+	case refsearch.OpLT:
+		if d == 0 {
+			d = 1
+		}
+		return nearInt(t, x, d, lbl)
+	default:
+		return nearInt(t, x, d, lbl)
+	}
+}
+
+var (
+	strOps = []object.SearchMatchType{refsearch.OpEQ, refsearch.OpNE, refsearch.OpPrefix}
+	numOps = []object.SearchMatchType{refsearch.OpGT, refsearch.OpGE, refsearch.OpLT, refsearch.OpLE}
+)
+
+// drawFilter draws a filter over key. With a witness, the filter is (most of
+// the time) one the witness satisfies.
+func drawFilter(t *rapid.T, view []refsearch.Obj, w *refsearch.Obj, key string, lbl string) refsearch.Filter {
 	if refsearch.IsFlag(key) {
 		return refsearch.Filter{Key: key}
 	}
-	ops := []object.SearchMatchType{refsearch.OpEQ, refsearch.OpNE, refsearch.OpPrefix,
-		refsearch.OpGT, refsearch.OpGE, refsearch.OpLT, refsearch.OpLE}
-	if !strings.HasPrefix(key, "$Object:") {
-		ops = append(ops, refsearch.OpAbsent)
+	user := !strings.HasPrefix(key, "$Object:")
+	follow := w != nil && rapid.IntRange(0, 9).Draw(t, lbl+"-follow") < 8
+	if follow {
+		_, has := w.Stored[key]
+		if !has {
+			if user {
+				return refsearch.Filter{Key: key, Op: refsearch.OpAbsent}
+			}
+			follow = false
+		}
 	}
 	var op object.SearchMatchType
-	if numericBias > 0 && rapid.IntRange(0, 9).Draw(t, lbl+"-numbias") < numericBias {
-		op = rapid.SampledFrom(ops[3:7]).Draw(t, lbl+"-nop")
+	if follow {
+		_, isInt := w.Int(key)
+		if isInt && rapid.IntRange(0, 9).Draw(t, lbl+"-num") < 6 {
+			op = rapid.SampledFrom(numOps).Draw(t, lbl+"-nop")
+		} else {
+			op = rapid.SampledFrom(strOps).Draw(t, lbl+"-sop")
+		}
+		return refsearch.Filter{Key: key, Op: op, Val: witnessValue(t, view, *w, key, op, lbl)}
+	}
+	ops := append(append([]object.SearchMatchType{}, strOps...), numOps...)
+	if user {
+		ops = append(ops, refsearch.OpAbsent)
+	}
+	if numericKey(key) && rapid.Bool().Draw(t, lbl+"-numbias") {
+		op = rapid.SampledFrom(numOps).Draw(t, lbl+"-nop")
 	} else {
 		op = rapid.SampledFrom(ops).Draw(t, lbl+"-op")
 	}
 	f := refsearch.Filter{Key: key, Op: op}
 	if op != refsearch.OpAbsent {
-		f.Val = filterValue(t, view, key, op, lbl)
+		f.Val = randomValue(t, view, key, op, lbl)
 	}
 	return f
 }
@@ -538,76 +623,90 @@ type QueryOpts struct {
 	WantAttrs bool
 	// MaxFilters (default 4).
 	MaxFilters int
-	// Wide biases filter values towards ones matching many objects (C04).
+	// Wide biases the 1st filter towards ones matching many objects (C04).
 	Wide bool
 }
 
+func keysOf(w refsearch.Obj, all []string) []string {
+	var r []string
+	for _, k := range all {
+		if _, ok := w.Stored[k]; ok {
+			r = append(r, k)
+		}
+	}
+	return r
+}
+
 // GenQuery draws a query whose values are taken from / near the corpus view.
+// Most queries are built around a witness object (an available object of the
+// view) so that conjunctions are satisfiable.
 func GenQuery(view []refsearch.Obj, o QueryOpts) *rapid.Generator[refsearch.Query] {
 	maxF := o.MaxFilters
 	if maxF <= 0 {
 		maxF = 4
 	}
 	all := append(append([]string{}, UserKeys...), SystemKeys...)
+	var avail []refsearch.Obj
+	for _, x := range view {
+		if x.Available {
+			avail = append(avail, x)
+		}
+	}
 	return rapid.Custom(func(t *rapid.T) refsearch.Query {
 		var q refsearch.Query
-		nf := rapid.IntRange(0, maxF).Draw(t, "nfilters")
+		nf := rapid.SampledFrom([]int{0, 1, 1, 1, 1, 1, 1, 2, 2, 2, 2, 2, 2, 3, 3, 3, 3, 4, 4, 4}).Draw(t, "nfilters")
+		if nf > maxF {
+			nf = maxF
+		}
 		if o.Primary != "" && nf == 0 {
 			nf = 1
 		}
 		if nf == 0 {
 			return q
 		}
+		var w *refsearch.Obj
+		if len(avail) > 0 && rapid.IntRange(0, 9).Draw(t, "haswitness") < 8 {
+			x := rapid.SampledFrom(avail).Draw(t, "witness")
+			w = &x
+		}
+		pickKey := func(lbl string) string {
+			if w != nil && rapid.IntRange(0, 9).Draw(t, lbl+"-wkey") < 8 {
+				return rapid.SampledFrom(keysOf(*w, all)).Draw(t, lbl)
+			}
+			return rapid.SampledFrom(all).Draw(t, lbl)
+		}
 		prim := o.Primary
 		if prim == "" {
-			if rapid.Bool().Draw(t, "primuser") {
-				prim = rapid.SampledFrom(UserKeys[:4]).Draw(t, "primkey")
-			} else {
-				prim = rapid.SampledFrom(all).Draw(t, "primkey")
-			}
-		}
-		bias := 0
-		if numericKey(prim) {
-			bias = 5
+			prim = pickKey("primkey")
 		}
 		var f0 refsearch.Filter
-		if o.Wide && !refsearch.IsFlag(prim) {
+		wide := o.Wide && !refsearch.IsFlag(prim) && rapid.IntRange(0, 9).Draw(t, "wide") < 7
+		if wide {
 			// match-many filters: prefix "", != junk, numeric >= min / <= max
-			switch k := rapid.IntRange(0, 9).Draw(t, "wide"); {
-			case k <= 2:
+			switch k := rapid.IntRange(0, 6).Draw(t, "widekind"); {
+			case k <= 2 && (!refsearch.IsBinary(prim) || prim == refsearch.KChecksum):
 				f0 = refsearch.Filter{Key: prim, Op: refsearch.OpPrefix, Val: ""}
-			case k <= 4:
+			case k <= 4 || !numericKey(prim):
 				f0 = refsearch.Filter{Key: prim, Op: refsearch.OpNE, Val: rapid.SampledFrom([]string{"", "zzz"}).Draw(t, "neval")}
-			case k <= 6 && numericKey(prim):
-				if rapid.Bool().Draw(t, "widege") {
-					f0 = refsearch.Filter{Key: prim, Op: refsearch.OpGE, Val: genint.MinVal.String()}
-				} else {
-					f0 = refsearch.Filter{Key: prim, Op: refsearch.OpLE, Val: genint.MaxAbs.String()}
-				}
+			case k == 5:
+				f0 = refsearch.Filter{Key: prim, Op: refsearch.OpGE, Val: genint.MinVal.String()}
 			default:
-				f0 = drawFilter(t, view, prim, "f0", bias)
+				f0 = refsearch.Filter{Key: prim, Op: refsearch.OpLE, Val: genint.MaxAbs.String()}
 			}
 		} else {
-			f0 = drawFilter(t, view, prim, "f0", bias)
+			f0 = drawFilter(t, view, w, prim, "f0")
 		}
 		q.Filters = append(q.Filters, f0)
 		for i := 1; i < nf; i++ {
 			key := prim
 			if rapid.IntRange(0, 9).Draw(t, fmt.Sprintf("f%d-same", i)) >= 4 {
-				key = rapid.SampledFrom(all).Draw(t, fmt.Sprintf("f%d-key", i))
+				key = pickKey(fmt.Sprintf("f%d-key", i))
 			}
-			b := 0
-			if numericKey(key) {
-				b = 5
-			}
-			if o.Wide && key != prim && rapid.Bool().Draw(t, fmt.Sprintf("f%d-skip", i)) {
-				continue
-			}
-			q.Filters = append(q.Filters, drawFilter(t, view, key, fmt.Sprintf("f%d", i), b))
+			q.Filters = append(q.Filters, drawFilter(t, view, w, key, fmt.Sprintf("f%d", i)))
 		}
-		if o.WantAttrs || rapid.IntRange(0, 9).Draw(t, "hasattrs") < 6 {
+		if o.WantAttrs || rapid.IntRange(0, 9).Draw(t, "hasattrs") < 7 {
 			q.Attrs = []string{prim}
-			na := rapid.IntRange(0, 2).Draw(t, "nattrs")
+			na := rapid.SampledFrom([]int{0, 0, 1, 1, 2}).Draw(t, "nattrs")
 			for i := 0; i < na; i++ {
 				q.Attrs = append(q.Attrs, rapid.SampledFrom(all).Draw(t, "attr"))
 			}
